@@ -1,7 +1,7 @@
 (* Entry points for C05 (pooled / flat reference, gc / rmask): model functions behind
    val -> val wrappers. *)
 From CNV Require Import Base.Prelude Base.Val Base.Str Base.QNum Model.Center Model.Reference
-  Spec.Biweight.
+  Spec.Biweight Spec.Reference.
 
 (* a bin crosses as [chrom; start; end; gene; log2; depth|None] *)
 Definition c05_getBin (v : val) : option bin :=
@@ -189,5 +189,16 @@ Definition e_c05_pool_gc (v : val) : val :=
                              c05_vOptQ (g_gc x); c05_vOptQ (g_rmask x)]) rows)]
       | _, _, _, _, _, _, _ => bad_input
       end
+  | _ => bad_input
+  end.
+
+(* the bounded-noise theorems (Props/C05.v, C05_bounded_noise_...): the radius of one bin and the proved constants,
+   so that the harness checks the code against the numbers the theorems carry:
+   [eps; flat; ideal value] -> [max (2 eps) |flat - ideal|; 62; 248; 0.15; 0.075] *)
+Definition e_c05_noise_bounds (v : val) : val :=
+  match getList getQ v with
+  | Some [eps; fl; t] =>
+      VL [c05_vQ (noise_radius eps fl t); c05_vQ spread_K_radius; c05_vQ spread_K; c05_vQ tolerance;
+          c05_vQ tolerance_eps]
   | _ => bad_input
   end.
